@@ -58,6 +58,8 @@ inductive Reason where
   -- footer
   | footerNotThrift | missingField (struct : String) | wrongFieldType (struct : String)
   | negativeField (what : String) | badName
+  -- a Thrift union (LogicalType, TimeUnit) that does not hold exactly one member; a TimeUnit member parquet.thrift does not have
+  | unionNotOneMember (union : String) | unknownTimeUnit
   -- schema
   | badSchemaTree | badRepetition | badPhysicalType | badTypeLength | rootNotGroup | emptyGroup
   -- row groups / chunks
